@@ -297,7 +297,9 @@ XSLTEngineImpl::process(
 
         bool            isOK = false;
 
-        while(child != 0 && isOK == false && theStylesheetURI.empty() == true)
+        // Look for the first xml-stylesheet processing instruction that
+        // names an XSLT stylesheet; others (type="text/css" ...) are passed over.
+        while(child != 0 && (isOK == false || theStylesheetURI.empty() == true))
         {
             if(XalanNode::PROCESSING_INSTRUCTION_NODE == child->getNodeType())
             {
@@ -305,6 +307,10 @@ XSLTEngineImpl::process(
 
                 if(equals(nodeName, s_stylesheetNodeName))
                 {
+                    // What an earlier, unsuitable instruction said does not count...
+                    isOK = false;
+                    theStylesheetURI.clear();
+
                     StringTokenizer     tokenizer(child->getNodeValue(), s_piTokenizerString);
 
                     while(tokenizer.hasMoreTokens() == true && (isOK == false || theStylesheetURI.empty() == true))
